@@ -342,7 +342,7 @@ func init() {
 	eng.Register(&eng.Check{
 		ID: "C22", Level: "exploration", HangBound: 120 * time.Second,
 		QuickBudget: 118 * time.Second, ThoroughBudget: 24 * time.Minute,
-		Rule: "every grid spec (cell count n, size pattern in {equal, one wide, one tall, increasing, alternating, one unlabelled container cell, one labelled container cell}, grid-rows x grid-columns in {unset,1,2,3,5}^2 (thorough: {unset,1,2,3,4,5,7,10}^2) minus both-unset, both declaration orders when both are set, grid-gap x vertical-gap x horizontal-gap in {unset,0,7,40}^3 or the stated slice of that cube; bounds per phase are in the phase names) is rendered to D2 text and laid out through d2lib.Compile (d2grid via LayoutNested; dagre for container cells and for the root when the grid is a nested container); checked on the d2graph boxes (exact, 1e-6) and the exported integer boxes (1 px); all specs distinct; non-trivial = at least 2 cells",
+		Rule: "every grid spec (cell count n, size pattern in {equal, one wide, one tall, increasing, alternating, one unlabelled container cell, one labelled container cell}, grid-rows x grid-columns in {unset,1,2,3,5}^2 (thorough: {unset,1,2,3,4,5,7}^2) minus both-unset, both declaration orders when both are set, grid-gap x vertical-gap x horizontal-gap in {unset,0,7,40}^3 or the stated slice of that cube; bounds per phase are in the phase names) is rendered to D2 text and laid out through d2lib.Compile (d2grid via LayoutNested; dagre for container cells and for the root when the grid is a nested container); checked on the d2graph boxes (exact, 1e-6) and the exported integer boxes (1 px); all specs distinct; non-trivial = at least 2 cells",
 		Assumptions: []string{
 			"cells carry no outside labels or icons (a cell with an outside label is deliberately shrunk by the label margin after layout, which the statement's equal-size clause does not describe); the labelled-container-cell pattern, which d2 gives an outside label, is therefore checked for order, gaps (>=), overlap and containment only",
 			"which cells form a line is read off the geometry: a cell continues the current line iff it starts at or after the end of the previous cell on the main axis",
@@ -402,13 +402,6 @@ func init() {
 				}
 				return false
 			}
-			slice4 := func(gg, vg, hg int) bool {
-				switch [3]int{gg, vg, hg} {
-				case [3]int{-1, -1, -1}, [3]int{7, -1, -1}, [3]int{-1, 0, 40}, [3]int{40, 7, 0}:
-					return true
-				}
-				return false
-			}
 			slice2 := func(gg, vg, hg int) bool {
 				return (gg == -1 && vg == -1 && hg == -1) || (gg == 40 && vg == 7 && hg == 0)
 			}
@@ -419,12 +412,12 @@ func init() {
 				run("container-cell n<=3 rows/cols<=3 (dagre, gap slice 2)", seq(1, 3), dagre, rcS, []string{"root"}, slice2)
 				run("nested-grid n<=3 rows/cols<=3 (dagre at root, gap slice 2)", seq(0, 3), []int{patEqual, patIncreasing, patAlternating}, rcS, []string{"box"}, slice2)
 			} else {
-				rcT := []int{0, 1, 2, 3, 4, 5, 7, 10}
-				run("root-grid n<=30 rows/cols in {unset,1,2,3,4,5,7,10} full gap cube", seq(0, 30), pure, rcT, []string{"root"}, nil)
-				run("container-cell n<=3 (dagre, full gap cube)", seq(1, 3), dagre, rcVals, []string{"root"}, nil)
-				run("container-cell n=4..12 (dagre, gap slice 4)", seq(4, 12), dagre, rcVals, []string{"root"}, slice4)
-				run("nested-grid n<=2 (dagre at root, full gap cube)", seq(0, 2), pure, rcVals, []string{"box"}, nil)
-				run("nested-grid n=3..16 (dagre at root, gap slice 4)", seq(3, 16), pure, rcVals, []string{"box"}, slice4)
+				rcT := []int{0, 1, 2, 3, 4, 5, 7}
+				run("root-grid n<=30 rows/cols in {unset,1,2,3,4,5,7} full gap cube", seq(0, 30), pure, rcT, []string{"root"}, nil)
+				run("container-cell n<=4 (dagre, gap slice 8)", seq(1, 4), dagre, rcVals, []string{"root"}, slice8)
+				run("container-cell n=5..10 (dagre, gap slice 2)", seq(5, 10), dagre, rcVals, []string{"root"}, slice2)
+				run("nested-grid n<=6 (dagre at root, gap slice 8)", seq(0, 6), pure, rcVals, []string{"box"}, slice8)
+				run("nested-grid n=7..12 (dagre at root, gap slice 2)", seq(7, 12), pure, rcVals, []string{"box"}, slice2)
 			}
 			w.Count("dagre_calls", int64(dagreCalls))
 		},
